@@ -22,6 +22,9 @@ theorem C01_body (e : Entry) (m : Media) (he : ∀ i, e.m i < 256) (hm : SectorL
     (hlen : 0 < e.fileLength) :
     readBody e m = fileContent m e.startSector e.fileLength := by
   unfold readBody bodyPieces fileContent
+  have hne0 : (e.fileLength == 0) = false := by simp; omega
+  rw [hne0]
+  simp only [Bool.false_eq_true, if_false]
   have hl := last_sector_eq e.m he
   have hne : ¬ file_length e.m = 0 := by
     unfold Entry.fileLength at hlen; omega
@@ -40,21 +43,11 @@ theorem C01_body (e : Entry) (m : Media) (he : ∀ i, e.m i < 256) (hm : SectorL
   rw [← this]
   simp [Option.map_map, Function.comp_def]
 
-/-- zero-length files deliver zero bytes (the C++ still reads the start sector,
-    so that sector must be readable) -/
-theorem C01_body_empty (e : Entry) (m : Media) (he : ∀ i, e.m i < 256)
-    (hlen : e.fileLength = 0) (hr : (m e.startSector).isSome) :
+/-- zero-length files deliver zero bytes, whatever the medium and start sector -/
+theorem C01_body_empty (e : Entry) (m : Media) (hlen : e.fileLength = 0) :
     readBody e m = some [] := by
   unfold readBody bodyPieces
-  have hl := last_sector_eq e.m he
-  have h0 : file_length e.m = 0 := hlen
-  rw [if_pos h0] at hl
-  have hk : e.lastSector + 1 - e.startSector = 1 := by
-    unfold Entry.lastSector Entry.startSector; rw [hl]; omega
-  rw [hk, hlen]
-  cases hs : m e.startSector with
-  | none => simp [hs] at hr
-  | some buf => simp [bodyLoop, hs]
+  simp [hlen]
 
 /-- **type** is the documented rendering of the same bytes (CR → newline) and
     `type --binary` is the identity — for every byte string. -/
